@@ -156,6 +156,8 @@ def run(ck):
     ck.rule("E3.seed", "the statement is bound: seed covers context and public inputs, every field encoded")
     for g in gs:
         ck.saw(g.fn)
+    from . import exempt
+    exempt.run(ck, prog)
     m = [g for g in by_err(gs, "InconsistentOodConstraintEvaluations")
          if match_cmp(g, ("!=",), has_callee("evaluator::evaluate_constraints"),
                       all_of(has_callee("VerifierChannel::read_ood_constraint_evaluations"), has_callee("RandomCoin::draw"),
